@@ -613,7 +613,11 @@ func (fc *fileCtx) externCallee(c *ast.CallExpr) string {
 func (fc *fileCtx) goStmt(g *ast.GoStmt) ast.Stmt {
 	fc.needVS = true
 	c := g.Call
-	id := fc.id(g, "go", fc.text(c.Fun))
+	goText := fc.text(c.Fun)
+	if _, isLit := c.Fun.(*ast.FuncLit); isLit {
+		goText = "func"
+	}
+	id := fc.id(g, "go", goText)
 	var pre []ast.Stmt
 	// hoist the callee unless it is a function literal
 	var fun ast.Expr
